@@ -147,20 +147,20 @@ func identityFields(w *World, fl *Flow, h *ssa.Function, depthLimit int) []idUse
 
 // T4: identity-bearing request fields that name a beneficiary / object, not the actor.
 var c03Beneficiary = map[string]string{
-	"MsgChangeAdmin.NewAdmin":                         "the new admin is the object of the hand-over; the actor is the current admin (creator-checked, C16)",
-	"MsgAddLightNodeClientLicense.ClientAddress":      "the licensee is the beneficiary; the payer is the creator",
-	"MsgSendToPalomaClaim.PalomaReceiver":             "claim payload: the deposit's receiver as observed on the remote chain",
-	"MsgSendToRemote.EthDest":                         "destination on the remote chain",
-	"MsgAddLightNodeClientFunders.Funders":            "governance-set list of funder accounts (authority-guarded)",
-	"MsgSetLegacyLightNodeClients":                    "",
-	"MsgSubmitBadSignatureEvidence.Subject":           "evidence payload; the punished validator is derived from the signature itself (C13)",
-	"MsgLightNodeSaleClaim.ClientAddress":             "claim payload: the buyer observed on the remote chain",
-	"MsgUpdateParams.Params.GasExemptAddresses":       "governance-set parameter list (authority-guarded)",
-	"MsgReplenishLostGrainsProposal":                  "",
-	"MsgSetERC20ToTokenDenom":                         "",
-	"MsgMint.Amount.Denom":                            "the factory/<creator>/<sub> denomination names the token, not the actor; control is the admin check against the creator (C16)",
-	"MsgBurn.Amount.Denom":                            "the factory/<creator>/<sub> denomination names the token, not the actor; control is the admin check against the creator (C16)",
-	"MsgSetERC20ToTokenDenom.Denom":                   "the denomination names the token; the handler requires the creator to be the token's admin",
+	"MsgChangeAdmin.NewAdmin":                                "the new admin is the object of the hand-over; the actor is the current admin (creator-checked, C16)",
+	"MsgAddLightNodeClientLicense.ClientAddress":             "the licensee is the beneficiary; the payer is the creator",
+	"MsgSendToPalomaClaim.PalomaReceiver":                    "claim payload: the deposit's receiver as observed on the remote chain",
+	"MsgSendToRemote.EthDest":                                "destination on the remote chain",
+	"MsgAddLightNodeClientFunders.Funders":                   "governance-set list of funder accounts (authority-guarded)",
+	"MsgSetLegacyLightNodeClients":                           "",
+	"MsgSubmitBadSignatureEvidence.Subject":                  "evidence payload; the punished validator is derived from the signature itself (C13)",
+	"MsgLightNodeSaleClaim.ClientAddress":                    "claim payload: the buyer observed on the remote chain",
+	"MsgUpdateParams.Params.GasExemptAddresses":              "governance-set parameter list (authority-guarded)",
+	"MsgReplenishLostGrainsProposal":                         "",
+	"MsgSetERC20ToTokenDenom":                                "",
+	"MsgMint.Amount.Denom":                                   "the factory/<creator>/<sub> denomination names the token, not the actor; control is the admin check against the creator (C16)",
+	"MsgBurn.Amount.Denom":                                   "the factory/<creator>/<sub> denomination names the token, not the actor; control is the admin check against the creator (C16)",
+	"MsgSetERC20ToTokenDenom.Denom":                          "the denomination names the token; the handler requires the creator to be the token's admin",
 	"MsgAddExternalChainInfoForValidator.ChainInfos.Address": "remote-chain account of the creator's own validator",
 }
 
